@@ -130,7 +130,9 @@ def _ref(n: str) -> dict:
 
 COMPONENTS = {
     "R": _obj({"x": {"type": "string"}}),
-    "M": _obj({"a": {"type": "string"}, "b-c": {"type": "integer"}}, ["a"]),
+    "Sub": _obj({"sku": {"type": "string"}, "qty": {"type": "integer"}}, ["sku"]),
+    # two fields and a list field of ONE sub-model: the aliased value mode shares a single Sub instance between them
+    "M": _obj({"a": {"type": "string"}, "b-c": {"type": "integer"}, "first": _ref("Sub"), "second": _ref("Sub"), "subs": {"type": "array", "items": _ref("Sub")}}, ["a"]),
     "FormM": _obj({"user": {"type": "string"}, "n": {"type": "integer"}}, ["user"]),
     "UploadM": _obj({"file": {"type": "string", "format": "binary"}}),
     "Color": {"type": "string", "enum": ["red", "green"]},
@@ -149,7 +151,8 @@ TYPE_SCHEMA = {
 BODY_CONTENT = {
     "json_model": {"application/json": {"schema": _ref("M")}},
     "json_prim": {"application/json": {"schema": {"type": "string"}}},
-    "json_array": {"application/json": {"schema": {"type": "array", "items": {"type": "string"}}}},
+    "json_array": {"application/json": {"schema": {"type": "array", "items": _ref("Sub")}}},
+    "json_map": {"application/json": {"schema": {"type": "object", "additionalProperties": True}}},
     "form": {"application/x-www-form-urlencoded": {"schema": _ref("FormM")}},
     "multipart": {"multipart/form-data": {"schema": _ref("UploadM")}},
     "octet": {"application/octet-stream": {"schema": {"type": "string", "format": "binary"}}},
@@ -175,7 +178,10 @@ def document(ops: list[dict], own_tags: bool = False) -> dict:
         if ol:
             node["parameters"] = ol
         if op["body"]["kind"] != "none":
-            node["requestBody"] = {"required": bool(op["body"]["required"]), "content": BODY_CONTENT[op["body"]["kind"]]}
+            content = BODY_CONTENT[op["body"]["kind"]]
+            if op["body"]["kind"] == "json_prim":
+                content = {"application/json": {"schema": {"type": {"int": "integer", "bool": "boolean"}.get(op["body"].get("ptype", ""), "string")}}}
+            node["requestBody"] = {"required": bool(op["body"]["required"]), "content": content}
         item: dict[str, Any] = {}
         if pl:
             item["parameters"] = pl
@@ -193,8 +199,11 @@ def generate_and_observe(chk: Check, groups: list[list[dict]], label: str, compi
     root = chk.scratch.sub("gen_" + label)
     jobs = [{"id": f"{label}{j}", "root": str(root), "spec": document(g, own_tags=j in compile_only), "pkg": f"p{label}{j}", "core": None, "force": True, "nopp": True} for j, g in enumerate(groups)]
     gres = core.parallel_py(chk.scratch, "harness.w_gen", jobs)
-    ojobs = [{"id": j["id"], "root": j["root"], "pkg": j["pkg"], "core": None, "want": ["compile"] if n in compile_only else ["surface", "wire"], "max_plans": 8} for n, (j, g) in enumerate(zip(jobs, gres)) if g["ok"]]
-    ores = {r["id"]: r for r in core.parallel_py(chk.scratch, "harness.w_obs", ojobs, env={"VERIF_OBS_EXTRA": "harness.obs_wire"})} if ojobs else {}
+    ojobs = [{"id": j["id"], "root": j["root"], "pkg": j["pkg"], "core": None, "want": ["compile"] if n in compile_only else ["surface", "wire4"], "max_plans": 8, "max_falsy": 6} for n, (j, g) in enumerate(zip(jobs, gres)) if g["ok"]]
+    ores = {r["id"]: r for r in core.parallel_py(chk.scratch, "harness.w_obs", ojobs, env={"VERIF_OBS_EXTRA": "harness.obs_wire,harness.obs_c04"})} if ojobs else {}
+    for r in ores.values():
+        if "wire4" in r:
+            r["wire"] = r.pop("wire4")
     return [{"ops": g, "job": j, "gen": gr, "obs": ores.get(j["id"])} for g, j, gr in zip(groups, jobs, gres)]
 
 
@@ -275,7 +284,7 @@ def bind_signature(op: dict, sig: list[list], calls: list[dict] = ()) -> list[di
         if kind == "two":
             ctype = "multipart/form-data" if "IO[" in ann else "application/json"
         else:
-            ctype = {"json_model": "application/json", "json_prim": "application/json", "json_array": "application/json", "form": "application/x-www-form-urlencoded", "multipart": "multipart/form-data", "octet": "application/octet-stream"}[kind]
+            ctype = {"json_model": "application/json", "json_prim": "application/json", "json_array": "application/json", "json_map": "application/json", "form": "application/x-www-form-urlencoded", "multipart": "multipart/form-data", "octet": "application/octet-stream"}[kind]
         out[j] = {"py": name, "role": "body", "target": 0, "ctype": ctype, "opt": bool(has_default)}
         rest.remove(j)
     for j in rest:  # position
@@ -409,8 +418,14 @@ def build_trace(op: dict, sig_obs: list[list], calls: list[dict]) -> tuple[dict,
             continue  # a selector value outside its Literal type is not a well-typed call
         if multi and nbody != 1:
             continue  # the overloads allow exactly one content argument
+        if c.get("mode") == "falsy":
+            e = sig[idx[c["falsy"]]] if c.get("falsy") in idx else None
+            if e is None or (e["role"] == "body" and e["ctype"] != "application/json") or e["role"] not in ("param", "body"):
+                continue  # an empty form / multipart / octet payload has no single wire meaning
+            if e["role"] == "param" and op["params"][e["target"] - 1]["type"] == "array":
+                continue  # neither has an empty array parameter
         args = [arg_record(sig[j], op, c["args"][sig[j]["py"]]) if j in supplied and c["args"][sig[j]["py"]] != "__none__" else dict(NOARG) for j in range(len(sig))]
-        recs.append({"cid": n, "args": args, "r": request_summary(c), "suspects": [], "want_expected": False, "_sup": {j for j in supplied if sig[j]["role"] == "param"}, "_raw": c})
+        recs.append({"cid": n, "args": args, "r": request_summary(c), "suspects": [], "want_expected": False, "_mode": c.get("mode", "tokens"), "_sup": {j for j in supplied if sig[j]["role"] == "param"}, "_raw": c})
     # suspects of a raising call: the supplied parameters without which the same method does send
     sent = [r for r in recs if r["r"]["n"] > 0]
     for r in recs:
@@ -585,6 +600,8 @@ def judge(chk: Check, items: list[tuple[dict, list[dict]]], label: str, negative
                 a = v["ante"]
                 chk.count(1)
                 chk.cov["traces_validated_against_impl"] += 1
+                chk.cov.setdefault("value_modes", {}).setdefault(rec["_mode"], 0)
+                chk.cov["value_modes"][rec["_mode"]] += 1
                 chk.clause("C04.count", 1)
                 chk.clause("C04.method", a["sent"] and 1)
                 chk.clause("C04.path", a["path"] if a["sent"] else 0)
@@ -817,6 +834,8 @@ def run(chk: Check) -> None:
         chk.require(not missing, f"negative traces never exercised: {missing}")
     for c in CLAUSES:
         chk.require(chk.cov["clauses_checked"].get(c, 0) > 0, f"clause {c} was never evaluated")
+    for m in ("tokens", "falsy", "aliased"):
+        chk.require(chk.cov.get("value_modes", {}).get(m, 0) > 0, f"no call in value mode {m} was judged")
     if items:
         t, recs = items[len(items) // 3]
         chk.sample({"operation": t["op"], "signature": t["sig"], "call": brief_request(recs[-1]["_raw"]) if recs else None})
